@@ -33,6 +33,7 @@ type SpecEnv struct {
 	depth  int
 	fr     *Frame // frame for calling Go functions from specs (may be nil)
 	mapIter func() *mapRange
+	loopEntry *State // state when the enclosing loop was entered (loop invariants only)
 	bound  []string // quantified variables in scope (SMT symbols)
 	axDepth int     // nesting of spec-function axiom instantiation
 }
@@ -761,6 +762,14 @@ func (e *SpecEnv) call(x *ast.CallExpr) T {
 			switch id.Name {
 			case "old":
 				return e.inOld().eval(x.Args[0])
+			case "atloop":
+				// atloop(e): the value of e when the enclosing loop was entered
+				if e.loopEntry == nil {
+					specFail("atloop() outside a loop invariant")
+				}
+				n := *e
+				n.cur = e.loopEntry
+				return n.eval(x.Args[0])
 			case "imp":
 				return boolT(sImp(e.eval(x.Args[0]).S, e.eval(x.Args[1]).S))
 			case "iff":
